@@ -41,6 +41,29 @@ func checkC03(c *Ctx) {
 	propose := p.Method("protocol/consensus", "Proposer", "Propose")
 	createPC := p.Method("security/cert", "Authority", "CreatePartialCert")
 
+	// the vote watermark: the field the property names, or -- when the state was wrapped in a small type --
+	// the location of the Voter that Vote sets to the view of the block it signed
+	lv := p.Field("protocol/consensus", "Voter", "lastVotedView")
+	lastVotedLoc := kLastVoted
+	if lv == nil && voterVote != nil {
+		rfl := NewFlow(p, voterVote)
+		for _, d := range deepInstrs(rfl, func(in ssa.Instruction) bool {
+			st, ok := in.(*ssa.Store)
+			if !ok {
+				return false
+			}
+			_, ok = st.Addr.(*ssa.FieldAddr)
+			return ok
+		}, 0) {
+			st := d.Instr.(*ssa.Store)
+			fa := st.Addr.(*ssa.FieldAddr)
+			loc := strings.TrimPrefix(d.Key(st.Addr), "&")
+			if d.Key(st.Val) == kBlockView+"p1)" && strings.HasPrefix(strings.TrimLeft(loc, "&"), "p0->hs/protocol/consensus.Voter.") {
+				lv, lastVotedLoc = fieldVar(fa.X.Type(), fa.Field), loc
+			}
+		}
+	}
+
 	// C03.1 who may sign
 	c.whoMayCall("C03.1", createPC, "Authority.CreatePartialCert", "(*hs/protocol/consensus.Voter).Vote")
 	{
@@ -163,7 +186,7 @@ func checkC03(c *Ctx) {
 		qcOf := kBlockQC + blk + ")"
 		gates := []gate{
 			{"G1", "freshness: lastVotedView < Block.View()", func(s FactSet, _ SuccessExit) bool {
-				return hasCmp(s, "<", contains(kLastVoted), is(bv))
+				return hasCmp(s, "<", contains(lastVotedLoc), is(bv))
 			}},
 			{"G2", "VoteRule(view, proposal) returned true", func(s FactSet, _ SuccessExit) bool {
 				return s.Has(func(f Fact) bool {
@@ -220,32 +243,44 @@ func checkC03(c *Ctx) {
 	}
 
 	// C03.6 lastVotedView discipline
-	lv := p.Field("protocol/consensus", "Voter", "lastVotedView")
 	ws := c.whoMayWrite("C03.6", lv, "Voter.lastVotedView", "(*hs/protocol/consensus.Voter).Vote", "(*hs/protocol/consensus.Voter).StopVoting")
+	// the stores, in Vote / StopVoting or in the private helpers they call, with the facts in the method's terms
+	judged := map[ssa.Instruction]bool{}
+	for _, root := range []*ssa.Function{voterVote, stopVoting} {
+		if root == nil || lv == nil {
+			continue
+		}
+		rfl := NewFlow(p, root)
+		for _, d := range deepInstrs(rfl, func(in ssa.Instruction) bool {
+			st, ok := in.(*ssa.Store)
+			if !ok {
+				return false
+			}
+			fa, ok := st.Addr.(*ssa.FieldAddr)
+			return ok && fieldVar(fa.X.Type(), fa.Field) == lv
+		}, 0) {
+			st := d.Instr.(*ssa.Store)
+			judged[st] = true
+			facts := d.Facts
+			val := d.Key(st.Val)
+			if root == voterVote {
+				ok := val == kBlockView+"p1)" && facts.Has(func(f Fact) bool {
+					return f.Op == "==" && oneIsNil(f) && strings.Contains(nonNil(f), "Authority).CreatePartialCert(") && strings.Contains(nonNil(f), ", p1)")
+				})
+				c.Check(ok, "C03.6", "Vote: lastVotedView := block.View() after successful signature", p.Pos(st.Pos()),
+					"stored value is "+val+", dominated by CreatePartialCert(block) == nil",
+					"store of "+val+" not dominated by a successful CreatePartialCert on the same block; facts: "+join(facts.Sorted()))
+			} else {
+				ok := val == "p1" && hasCmp(facts, "<", contains(lastVotedLoc), is("p1"))
+				c.Check(ok, "C03.6", "StopVoting: monotone update", p.Pos(st.Pos()),
+					"lastVotedView := view only under lastVotedView < view",
+					"store of "+val+" not gated by lastVotedView < view; facts: "+join(facts.Sorted()))
+			}
+		}
+	}
 	for _, w := range ws {
-		if w.Fresh {
-			continue
-		}
-		st, ok := w.Instr.(*ssa.Store)
-		if !ok {
-			continue
-		}
-		fl := NewFlow(p, w.Fn)
-		facts := fl.At(w.Instr)
-		val := fl.K.Key(st.Val)
-		switch w.Fn {
-		case voterVote:
-			ok := val == kBlockView+"p1)" && facts.Has(func(f Fact) bool {
-				return f.Op == "==" && oneIsNil(f) && strings.Contains(nonNil(f), "Authority).CreatePartialCert(") && strings.Contains(nonNil(f), ", p1)")
-			})
-			c.Check(ok, "C03.6", "Vote: lastVotedView := block.View() after successful signature", p.Pos(w.Instr.Pos()),
-				"stored value is "+val+", dominated by CreatePartialCert(block) == nil",
-				"store of "+val+" not dominated by a successful CreatePartialCert on the same block; facts: "+join(facts.Sorted()))
-		case stopVoting:
-			ok := val == "p1" && hasCmp(facts, "<", contains(kLastVoted), is("p1"))
-			c.Check(ok, "C03.6", "StopVoting: monotone update", p.Pos(w.Instr.Pos()),
-				"lastVotedView := view only under lastVotedView < view",
-				"store of "+val+" not gated by lastVotedView < view; facts: "+join(facts.Sorted()))
+		if _, isStore := w.Instr.(*ssa.Store); isStore && !w.Fresh && !judged[w.Instr] && (w.Fn == voterVote || w.Fn == stopVoting) {
+			c.Undecided("C03.6", "lastVotedView: store", p.Pos(w.Instr.Pos()), "a store of the vote watermark that the rule could not judge")
 		}
 	}
 
